@@ -19,11 +19,13 @@ THEOREMS = ['C12_repr_cannot_escape', 'C12_repr_cannot_escape_before', 'C12_repr
 RULE = ('sources with 1-4 hostile quoted atoms (quotes of both kinds, line breaks, CR, NUL, control, #, triple quotes, Python statements, '
         'non-ASCII printable and non-printable code points, lone surrogates) placed in fact arguments, head arguments, goal names, goal '
         'arguments, list elements, functor names, nested compound terms and as clause-head names (must be rejected); variables named like '
-        'Python constants / engine API / generated locals; random programs with exotic atoms. Compared: verdict and text with the Coq model '
+        'Python constants / engine API / generated locals; random programs with exotic atoms; clause-head names and atoms that are ASCII identifiers '
+        'but for one or two characters of nine computed classes (case mapping / re.IGNORECASE / normal form is or starts with an ASCII identifier '
+        'character, identifier-legal and renamed by NFKC, decimal digits, identifier start / continue), the small classes enumerated completely. Compared: verdict and text with the Coq model '
         'compile_text. Oracle on the real output: token classes (fixed vocabulary, V_ identifiers, argN/lN/cutIfN, canonical decimals, '
         'one-line string literals, def names = head keys), ast node-type whitelist, loaded names = API whitelist or locals, calls only to '
         'the 7 API functions, string constants = the atoms of the source in order, int constants = the numerals, loading adds only head '
-        'keys and rebinds no API name, __builtins__ of the exec globals is empty, hostile queries have no answers / no exception / no '
+        'keys, defines every head key and rebinds no API name, __builtins__ of the exec globals is empty, hostile queries have no answers / no exception / no '
         'side effect. Non-trivial: an accepted source containing an atom whose repr is not quote+text+quote, or a rejected head name.')
 TRUSTED_BASE = []
 CASE_TIMEOUT = 30
